@@ -171,6 +171,20 @@ def directed() -> list[dict[str, Any]]:
                                                             'quiet': 6.0, 'horizon': 300.0, 'latency': 0.001, 'namespaces': ['ns1', 'ns2'],
                                                             'settings': {'queueing__idle_timeout': 1.0, 'watching__reconnect_backoff': 0.1}, 'operator_kwargs': {'namespaces': ['ns*']},
                                                             'extra_resources': [], 'kube': {}, 'end': 'stop', 'exit_wait': 60.0, 'mode': 'pattern', 'fatal': False, 'post_yields': yields, 'lag': None}})
+    # a second cluster change arrives while the orchestrator is still busy with the first one (draining the watcher of a removed namespace
+    # whose worker has a slow handler in flight): the notification must not be lost
+    for yields in (0, 2, 5):
+        for second in (['ns_add', 'ns4'], ['ns_del', 'ns2']):
+            for gap in (0.0, 0.001, 0.1, 0.5, 0.9):
+                k += 1
+                tl = [[0.0, 'create', 'ns1/o0', {'spec': {'x': 0}}], [0.0, 'create', 'ns2/o1', {'spec': {'x': 0}}], [0.5, 'start', 'op1'], [3.0, 'ns_add', 'ns3'],
+                      [3.3, 'create', 'ns3/b0', {'spec': {'x': 0}}], [5.5, 'edit', 'ns3/b0', {'spec': {'x': 1}}], [6.0, 'ns_del', 'ns3'], [round(6.0 + gap, 3), *second],
+                      [12.0, 'edit', 'ns1/o0', {'spec': {'x': 5}}], [16.0, 'edit', 'ns1/o0', {'spec': {'x': 6}}]]
+                out.append({'name': f'dirb{k}', 'desc': {'seed': k, 'handlers': [{'kind': 'event', 'id': 'ev'}, {'kind': 'event', 'id': 'evw', 'resource': 'kopfwidgets'},
+                                                                                 {'kind': 'update', 'id': 'u1', 'script': [['slow', 1.5]] * 40}], 'timeline': tl,
+                                                         'quiet': 6.0, 'horizon': 300.0, 'latency': 0.001, 'namespaces': ['ns1', 'ns2'],
+                                                         'settings': {'queueing__idle_timeout': 1.0, 'watching__reconnect_backoff': 0.1}, 'operator_kwargs': {'namespaces': ['ns*']},
+                                                         'extra_resources': [], 'kube': {}, 'end': 'stop', 'exit_wait': 60.0, 'mode': 'pattern', 'fatal': False, 'post_yields': yields, 'lag': None}})
     # a stream ends at the very instant the operator pauses (a higher-priority peer appears)
     for yields in (0, 1, 2, 3, 5, 8, 13):
         for first in ('event', 'peer'):
